@@ -4,7 +4,7 @@
     classes and the XSD facets, all re-extracted from /repo on this run. *)
 From V.lib Require Import Prelude PyFloat PyVal.
 From V.model Require Import SimpleTypeLib.
-From V.proofs Require Import PyFloat_proofs SimpleTypeLib_proofs C11_instance.
+From V.proofs Require Import PyFloat_proofs SimpleTypeLib_proofs C11_instance C11_float_instance.
 From V.gen Require Import GenC11.
 
 Theorem C11_write_ok_sound : forall d t, write_ok d t = true ->
@@ -71,6 +71,18 @@ Theorem C11_R_digit_limit : forall s z, lex_integer s = Some z ->
   (int_max_str_digits < int_digits s)%N -> int_of_str false s = Err ValueErr.
 Proof. exact int_of_str_lex_over. Qed.
 Print Assumptions C11_R_digit_limit.
+
+(** float-valued classes without a canonical descriptor: write-side theorems proved directly
+    on the regenerated Gallina, for ALL python values *)
+Theorem C11_W_PositiveFixedAngle : forall v s,
+  ST_PositiveFixedAngle__to_xml v = Ok (PStr s) -> lex_ok (LInt 0 21599999) s = true.
+Proof. exact W_PositiveFixedAngle. Qed.
+Print Assumptions C11_W_PositiveFixedAngle.
+
+Theorem C11_W_Angle : forall v s,
+  ST_Angle__to_xml v = Ok (PStr s) -> lex_ok (LInt 0 21599999) s = true.
+Proof. exact W_Angle. Qed.
+Print Assumptions C11_W_Angle.
 
 (** non-vacuity *)
 Example C11_ex_rows : (0 < length (filter (fun r => N.eqb (w_verdict r) 0) rows))%nat
